@@ -551,6 +551,13 @@ fn run_program_inner(c: &Case, sx: &mut Sx, dump: &mut Vec<Option<(usize, usize,
                     if r.is_err() && me.ct.meta() != before {
                         return fail(step, op, "metadata-changed-on-error", format!("in-place operation failed but the metadata went from {before:?} to {:?}", me.ct.meta()));
                     }
+                    // compaction = "the minimum limb count that still preserves the metadata"; a successful reallocation gives the requested count
+                    if r.is_ok() && k9 == 7 && me.ct.size() != sa.eff().div_ceil(b) {
+                        return fail(step, op, "compacted-size-not-minimal", format!("ckks_compact_limbs left {} limbs for log_delta + log_budget = {} bits at base2k = {b} (minimum {})", me.ct.size(), sa.eff(), sa.eff().div_ceil(b)));
+                    }
+                    if r.is_ok() && k9 == 8 && me.ct.size() != limbs.clamp(1, 10) as usize {
+                        return fail(step, op, "reallocated-size-differs", format!("ckks_reallocate_limbs_checked({}) left {} limbs", limbs.clamp(1, 10), me.ct.size()));
+                    }
                     if r.is_ok() {
                         if let Some(sh) = res_sh {
                             me.sh = sh;
